@@ -214,7 +214,7 @@ fn list(d: &std::path::Path) -> BTreeSet<String> {
 pub fn check(tier: &str) -> i32 {
     let t0 = Instant::now();
     let vseed = crate::driver::verif_seed();
-    let exe = std::env::current_exe().unwrap();
+    let exe = std::path::PathBuf::from("/proc/self/exe");
     let per_shape: usize = std::env::var("VERIF_C13_ITERS").ok().and_then(|s| s.parse().ok()).unwrap_or(if tier == "thorough" { 650_000 } else { 13_000 });
     let outdir = crate::driver::workdir_base().join("c13");
     let workers = 16usize;
